@@ -261,6 +261,10 @@ func (im *inertModel) classifiesOutcome(m, f inertPoint) bool {
 		if _, isC := a.(*ssa.Const); isC {
 			continue
 		}
+		// the caller's own reply slot handed in to be filled (`listErrorReply(&output, err)`)
+		if al, isAl := a.(*ssa.Alloc); isAl && al.Parent() == fc.Parent() {
+			continue
+		}
 		if !inertDerives(a, mc, 0) {
 			return false
 		}
